@@ -484,7 +484,7 @@ func main() {
 		return
 	}
 	g := &genr{w: w, r: gen.New(gen.Seed())}
-	nblocks := gen.Scale(1500, 25000)
+	nblocks := gen.Scale(1200, 25000)
 	for i := 0; i < nblocks; i++ {
 		check(w, g.r.Intn(len(w.Bases)), g.block())
 	}
